@@ -108,6 +108,8 @@ class Ctx:
             self._build_modelrun()
         if prop_file:
             self._check_property_file(prop_file)
+            if self.thorough and not self.broken:
+                self._coqchk(prop_file)
         self._grep_gate()
 
     def _build_go(self):
@@ -199,6 +201,24 @@ class Ctx:
         if bad:
             self.broken.append(("proof", prop_file + ":assumptions", " ".join(" ".join(bad).split())[:400]))
         self.n_assumption_blocks = len(blocks)
+
+    def _coqchk(self, prop_file):
+        """thorough tier: re-check the compiled property file and everything it depends on with the independent
+        checker, and record the axioms it reports"""
+        mod = "BCL." + prop_file[:-2].replace("/", ".")
+        with BuildLock():
+            rc, out, dt = sh(["coqchk", "-silent", "-o", "-Q", ".", "BCL", mod], cwd=COQ, timeout=7200)
+        self.notes.append("coqchk %s: exit %d in %.0fs" % (mod, rc, dt))
+        m = re.search(r'\* Axioms:(.*?)(?:\n\* |\Z)', out, re.S)
+        ax = " ".join(m.group(1).split()) if m else "?"
+        self.coqchk_axioms = ax
+        self.notes.append("coqchk axioms: " + ax[:600])
+        if rc != 0:
+            self.broken.append(("proof", "coqchk " + mod, out[-600:]))
+        elif "<none>" not in ax and ax not in ("", "?"):
+            # axioms of libraries loaded transitively would be listed here; ours must have none
+            if re.search(r'BCL\.', ax):
+                self.broken.append(("proof", "coqchk reports axioms in the development", ax[:400]))
 
     def _grep_gate(self):
         pat = re.compile(r'\b(Admitted|admit|Axiom|Parameter|Conjecture|Unset Guard|bypass_check|type-in-type|'
